@@ -10,7 +10,7 @@ CONSTANTS MaxFields, Pairs   \* Pairs: emit two-field shapes too
 GoTypes == {"string", "*int", "[]uint8", "bool", "float64", "[]string", "*[]string", "time.Time", "*uint64",
             "named-int", "*named-string", "named-strings", "*[]uint8", "*time.Time", "*bool", "*string"}   \* user-defined types whose underlying type is supported
 JsonTags == {"a", "b", "", "id", "~", "a,omitempty"}   \* "~": json:"" (the key is there, the name is empty); the last one: the whole tag is the name, option and all
-ApiTags == {"", "attr", "rel", "rel,", "rel,tt", "rel,tt,inv", "rel,a,b,c", "other", "rel,,inv", "attr,omitempty"}
+ApiTags == {"", "attr", "rel", "rel,", "rel,tt", "rel,tt,inv", "rel,a,b,c", "other", "rel,,inv", "attr,omitempty", "related", "relation,tt"}
 IdVariants == {"ok", "noapi", "absent", "int", "jsonother", "nojson", "last", "named"}
 F(g, j, a) == [gotype |-> g, json |-> j, api |-> a]
 FieldSpecs == { F(g, j, a) : g \in GoTypes, j \in JsonTags, a \in ApiTags }
@@ -26,7 +26,7 @@ Init == \/ \E v \in IdVariants : sh = [id |-> v, fields |-> <<>>]
               sh = [id |-> "ok", fields |-> <<F(g1, "a", a1), F(g2, "a", a2)>>]
         \* a field without api tag that reuses the json name of a tagged one, in both orders
         \/ \E a1 \in {"attr", "rel,tt"}, g1 \in {"string", "*int", "[]string"}, g2 \in {"string", "*int", "[]string", "bool"}, first \in BOOLEAN,
-              a2 \in {"", "other", "attr,omitempty"} :    \* no api tag, or one that is neither attr nor rel
+              a2 \in {"", "other", "attr,omitempty", "related", "relation,tt"} :    \* no api tag, or one that is neither attr nor rel
               sh = [id |-> "ok", fields |-> IF first THEN <<F(g1, "a", a1), F(g2, "a", a2)>> ELSE <<F(g2, "a", a2), F(g1, "a", a1)>>]
         \* two tagged fields whose json names differ by their case only ("a" and "A"): two fields, in both orders
         \/ \E a1 \in {"attr", "rel,tt"}, a2 \in {"attr", "rel,tt"}, g1 \in {"string", "*int"}, g2 \in {"string", "[]string", "bool"}, first \in BOOLEAN :
